@@ -20,6 +20,8 @@ Hand model of the mass-property code of the model compiler (C35):
                                  `iquat`, diagonal `inertia` or `fullinertia`), `inertiafromgeom` FALSE/TRUE/AUTO,
                                  `inertiagrouprange`, then `bodyFinish` with the compiler's bounds / `balanceinertia`.
 * `setTotalmass`               — `mj_setTotalmass` (compiler option `settotalmass`).
+* `geomCompileState`, `compileGeoms`, `bodyCompileState` — the same code with the compile state (`mjCGeom::mass_`,
+                                 `mjCGeom::inertia`) that survives from one compile of an `mjSpec` to the next.
 
 Mesh volume / inertia integrals (user_mesh.cc) are NOT modelled.
 Generic over `MjNum α` (run on `Float` by lean/Drivers/C35.lean, reasoned about on `ℝ`).  Core Lean only.
@@ -453,5 +455,97 @@ def setTotalmass (newmass : α) (bs : List (BodyMI α)) : List (BodyMI α) :=
 /-- `if (compiler.settotalmass > 0) mj_setTotalmass(m, compiler.settotalmass)` at the end of `mjCModel::CopyTree…` -/
 def applyTotalmass (settotalmass : α) (bs : List (BodyMI α)) : List (BodyMI α) :=
   if L 0 < settotalmass then setTotalmass settotalmass bs else bs
+
+/-! ### compile state that survives between compiles of one `mjSpec` (edit, then compile again)
+
+`mjCGeom::CopyFromSpec` resets the `mjsGeom` fields (size, pos, quat, mass, density, …) from the spec, and
+`mjCBody::CopyFromSpec` resets every inertial field of the body, but the private members `mjCGeom::mass_` and
+`mjCGeom::inertia` are written only by `mjCGeom::Compile` (constructor: 0).  They are the state carried from one
+compile of a spec to the next. -/
+
+/-- the compile state of a geom: `mass_`, `inertia` -/
+structure GeomState (α : Type) where
+  mass_ : α
+  inertia : V3 α
+
+/-- state after the constructor -/
+def geomState0 : GeomState α := ⟨L 0, v3zero⟩
+
+/-- the mass-relevant `mjsGeom` fields (`quat` after `mjuu_normvec`; `mass = none` is `!mjuu_defined(mass)`) -/
+structure GeomDesc (α : Type) where
+  group : Int
+  t : GType
+  shell : Bool
+  mass : Option α
+  density : α
+  size : V3 α
+  pos : V3 α
+  quat : Q α
+
+/-- the mass / inertia block of `mjCGeom::Compile` starting from the state `st` left by the previous compile:
+    nothing is written when `inferinertia` is false; `mass == 0` and `density == 0` write `mass_` only; a defined
+    non-zero mass with volume `≤ mjEPS` writes nothing.  `none`: volume outside the model (ellipsoid shell). -/
+def geomCompileState (pi : α) (st : GeomState α) (infer : Bool) (d : GeomDesc α) : Option (GeomState α) :=
+  if !infer then some st else
+  match geomVolume pi d.t d.shell d.size with
+  | none => none
+  | some vol =>
+    match d.mass with
+    | some m =>
+      if MjNum.beq m (L 0) then some ⟨L 0, st.inertia⟩
+      else if mjEPS < vol then some ⟨m, geomInertia pi d.t d.shell m d.size⟩
+      else some st
+    | none =>
+      if MjNum.beq d.density (L 0) then some ⟨L 0, st.inertia⟩
+      else
+        let m := d.density * vol
+        some ⟨m, geomInertia pi d.t d.shell m d.size⟩
+
+/-- what the selection loop of `InertiaFromGeom` takes from a compiled geom: group in range and `mass_ > mjEPS` -/
+def geomSelect (o : MassOpts α) (d : GeomDesc α) (st : GeomState α) : Option (GeomMI α) :=
+  if o.glo ≤ d.group ∧ d.group ≤ o.ghi ∧ mjEPS < st.mass_ then some ⟨st.mass_, d.pos, d.quat, st.inertia⟩ else none
+
+/-- the geom loop of `mjCBody::Compile` followed by the selection loop of `InertiaFromGeom`:
+    new states and selected geoms, in order -/
+def compileGeoms (pi : α) (o : MassOpts α) (inferB : Bool) :
+    List (GeomDesc α × GeomState α) → Option (List (GeomState α) × List (GeomMI α))
+  | [] => some ([], [])
+  | (d, st) :: rest =>
+    match geomCompileState pi st (inferB && decide (o.glo ≤ d.group ∧ d.group ≤ o.ghi)) d, compileGeoms pi o inferB rest with
+    | some st', some (sts, sel) =>
+      some (st' :: sts, match geomSelect o d st' with | some g => g :: sel | none => sel)
+    | _, _ => none
+
+/-- `bodyCompile` on a spec whose geoms carry the states of a previous compile: the result and the new states.
+    An error thrown before the geom loop (inertial clause) leaves the states untouched. -/
+def bodyCompileState (pi : α) (o : MassOpts α) (bpos : V3 α) (bquat : Q α) (sp : BodyInertial α)
+    (geoms : List (GeomDesc α × GeomState α)) : Option (Except String (BodyMI α) × List (GeomState α)) :=
+  let iquat0 := (normvec4 sp.iquat).1
+  let nz := fun (x : α) => !(MjNum.beq x (L 0))
+  let r1 : Except String (Q α × V3 α) :=
+    match sp.fullinertia with
+    | none => .ok (iquat0, sp.inertia)
+    | some f =>
+      if nz sp.inertia.x || nz sp.inertia.y || nz sp.inertia.z then
+        .error "fullinertia and diagonal inertia cannot both be specified"
+      else fullInertia f.xx f.yy f.zz f.xy f.xz f.yz
+  match r1 with
+  | .error e => some (.error e, geoms.map (·.2))
+  | .ok (iquat, inertia) =>
+    let inferB := !sp.explicitinertial || decide (o.fromgeom = .yes)
+    match compileGeoms pi o inferB geoms with
+    | none => none
+    | some (sts, sel) =>
+      let call := decide (o.fromgeom = .yes) || (sp.ipos.isNone && decide (o.fromgeom = .auto))
+      let r2 : Except String (Option (BodyMI α)) := if call then inertiaFromGeom sel else .ok none
+      let res : Except String (BodyMI α) :=
+        match r2 with
+        | .error e => .error e
+        | .ok (some b) => bodyFinish o.boundmass o.boundinertia o.balance b
+        | .ok none =>
+          match sp.ipos with
+          | some p => bodyFinish o.boundmass o.boundinertia o.balance ⟨sp.mass, p, iquat, inertia⟩
+          | none => bodyFinish o.boundmass o.boundinertia o.balance ⟨sp.mass, bpos, bquat, inertia⟩
+      some (res, sts)
 
 end MjProof.MassProps
